@@ -96,3 +96,28 @@ def strip_soft(text):
             continue
         keep.append(show(e))
     return keep
+
+
+class CoqInterner:
+    """Hash-consing writer: every distinct atom / list becomes one Coq Definition, so that the
+    many repeated sub-expressions of an emitted script (x_i_j, (= t_j theta_k) ...) are parsed by
+    Coq once.  `defs` is the list of Definition lines, `script(text)` returns the Coq term of the
+    whole script (a list of names)."""
+
+    def __init__(self):
+        self.atoms, self.nodes, self.defs = {}, {}, []
+
+    def term(self, e):
+        if isinstance(e, str):
+            if e not in self.atoms:
+                self.atoms[e] = "a%d" % len(self.atoms)
+                self.defs.append("Definition %s := SA %s." % (self.atoms[e], coq_string(e)))
+            return self.atoms[e]
+        key = tuple(self.term(x) for x in e)
+        if key not in self.nodes:
+            self.nodes[key] = "e%d" % len(self.nodes)
+            self.defs.append("Definition %s := SL [%s]." % (self.nodes[key], "; ".join(key)))
+        return self.nodes[key]
+
+    def script(self, text):
+        return "[" + "; ".join(self.term(e) for e in read_all(text)) + "]"
